@@ -35,6 +35,209 @@ def walk_all(ps):
                 yield from walk_all(e.extra["paths"])
 
 
+def trick_contracts(ctx, P) -> None:
+    """Per-method contracts of the auto-restart trick (each method enumerated on its own, sibling methods as opaque calls)."""
+    from ..model import boolified
+    from ..pse import Cfg
+
+    RT = ctx.rule(
+        "C18/restart-sequencing",
+        "start(): a debouncer (interval, callback reaching _restart_process) is created and started iff an interval is set, then the child is "
+        "started; on_any_event(): ignored event types do nothing, every other event goes to the debouncer if there is one, else restarts "
+        "directly, exactly once; _restart_process(): nothing while stopping, else stop then start then count; _start_process(): nothing "
+        "while stopping, else spawn the command, and watch it (callback = _restart_process) iff restart_on_command_exit",
+        floor=8,
+    )
+    RKC = ctx.rule(
+        "C18/stop-kills-the-child",
+        "_stop_process(): an existing child gets the stop signal; if that fails the child is gone; otherwise it is polled until it has "
+        "exited or kill_after has elapsed, and on expiry it gets signal 9 (a failure of which is absorbed); the field is cleared on every "
+        "path; kill_process signals the child's process group (posix) / the process (Windows) with the given signal",
+        floor=4,
+    )
+    A = P.cls("AutoRestartTrick")
+
+    class K(ThreadCfg):
+        def raises(self, kind, text, node, st):
+            if kind == "call" and (st.last_func or "") == "kill_process":
+                return ["OSError"]
+            return ()
+
+    cfg = K(P, follow_attrs=False, no_inline=set(A.methods) | {"join", "start"})
+    cfg.havoc_on_acquire = False
+
+    def paths(m):
+        fi = A.methods.get(m)
+        if fi is None:
+            raise AnalysisError(f"anchor vanished: AutoRestartTrick.{m}")
+        return fi, [p for p in Enumerator(cfg).run(fi, selfcls="AutoRestartTrick")]
+
+    def calls(p):
+        return [(e.extra.get("func"), e.extra.get("args") or [], e.extra.get("kwargs") or {}) for e in p.evs if e.kind == "call"]
+
+    # ---- start
+    fi, ps = paths("start")
+    for p in ps:
+        iv = p.conds().get("self.debounce_interval_seconds")
+        cs = calls(p)
+        fs = [f for f, _, _ in cs]
+        deb = [e for e in p.evs if e.kind == "store" and e.extra.get("attr") == "event_debouncer"]
+        ok, why = True, ""
+        if iv is True:
+            ctor = [(a, k) for f, a, k in cs if f == "EventDebouncer"]
+            good_ctor = len(ctor) == 1 and ctor[0][1].get("debounce_interval_seconds") == "self.debounce_interval_seconds" and "self._restart_process" in ctor[0][1].get("events_callback", "")
+            if not (len(deb) == 1 and deb[0].extra.get("value", "").startswith("EventDebouncer(") and good_ctor):
+                ok, why = False, "an interval is set but no EventDebouncer(debounce_interval_seconds=the interval, events_callback -> _restart_process) is stored"
+            elif "self.event_debouncer.start" not in fs:
+                ok, why = False, "the debouncer thread is never started: events pile up and no batch ever restarts the child"
+        elif iv is False:
+            if deb:
+                ok, why = False, "a debouncer is created although no interval is set"
+        else:
+            ok, why = False, "the debounce interval is not consulted"
+        if ok and (not fs or fs[-1] != "self._start_process"):
+            ok, why = False, "start() does not end by starting the child"
+        ctx.check(ok, RT, f"AutoRestartTrick.start interval={iv}", why, fi.loc)
+    # ---- on_any_event
+    fi, ps = paths("on_any_event")
+    evp = ([a.arg for a in fi.node.args.args if a.arg != "self"] or ["event"])[0]
+    seen = set()
+    for p in ps:
+        c = p.conds()
+        ign = next((v for k, v in c.items() if k.startswith(f"{evp}.event_type in ") and "EVENT_TYPE_OPENED" in k and "EVENT_TYPE_CLOSED_NO_WRITE" in k), None)
+        has = c.get("self.event_debouncer is None")
+        fs = calls(p)
+        he = [a for f, a, _ in fs if f == "self.event_debouncer.handle_event"]
+        rs = [a for f, a, _ in fs if f == "self._restart_process"]
+        if ign is True:
+            ok, why = not he and not rs, "an opened / closed-without-write event triggers a restart (reading the watched files would restart the child in a loop)"
+        elif ign is False and has is False:
+            ok, why = he == [[evp]] and not rs, "with a debouncer the event must be handed to it, exactly once, and nothing restarted directly"
+        elif ign is False and has is True:
+            ok, why = len(rs) == 1 and not he, "without a debouncer every triggering event restarts the child exactly once"
+        else:
+            ok, why = False, "the ignored event types / the presence of the debouncer are not consulted"
+        seen.add((ign, has))
+        ctx.check(ok, RT, f"AutoRestartTrick.on_any_event ignored-type={ign} debouncer={'?' if has is None else not has}", why, fi.loc)
+    if not {(True, None), (False, True), (False, False)} <= seen and not any(not i.ok for i in ctx.instances if i.rule == RT):
+        raise AnalysisError(f"AutoRestartTrick.on_any_event: expected the three cases, found {sorted(map(str, seen))}")
+    # ---- _restart_process
+    fi, ps = paths("_restart_process")
+    for p in ps:
+        st_ = p.conds().get("self._is_trick_stopping")
+        fs = [f for f, _, _ in calls(p) if f in ("self._stop_process", "self._start_process")]
+        cnt = [e for e in p.evs if e.kind == "store" and e.extra.get("attr") == "restart_count"]
+        if st_ is True:
+            ok, why = not fs, "a restart proceeds although the trick is stopping"
+        elif st_ is False:
+            ok, why = fs == ["self._stop_process", "self._start_process"] and len(cnt) == 1 and cnt[0].extra.get("value") == "self.restart_count + 1", f"a restart must be: stop the child, start a new one, count it — does {fs}, count stores {[e.text for e in cnt]} (start before stop = two children alive; no stop = the old child keeps running; no start = no child)"
+        else:
+            ok, why = False, "the stopping flag is not consulted"
+        ctx.check(ok, RT, f"AutoRestartTrick._restart_process stopping={st_}", why, fi.loc)
+    # ---- _start_process
+    fi, ps = paths("_start_process")
+    for p in ps:
+        c = p.conds()
+        st_, ex = c.get("self._is_trick_stopping"), c.get("self.restart_on_command_exit")
+        cs = calls(p)
+        spawn = [a for f, a, _ in cs if f == "subprocess.Popen"]
+        pst = [e for e in p.evs if e.kind == "store" and e.extra.get("attr") == "process"]
+        wst = [e for e in p.evs if e.kind == "store" and e.extra.get("attr") == "process_watcher"]
+        wstart = [f for f, _, _ in cs if f == "self.process_watcher.start"]
+        if st_ is True:
+            ok, why = not spawn, "a child is spawned although the trick is stopping"
+        elif st_ is False:
+            ok = len(spawn) == 1 and spawn[0][:1] == ["self.command"] and len(pst) == 1 and pst[0].extra.get("value", "").startswith("subprocess.Popen(")
+            why = "the command is not spawned exactly once and kept in self.process"
+            if ok and ex is True:
+                ok = len(wst) == 1 and wst[0].extra.get("value") == "ProcessWatcher(self.process, self._restart_process)" and len(wstart) == 1
+                why = "restart_on_command_exit: the child is not watched by a started ProcessWatcher(child, _restart_process)"
+            elif ok and ex is False:
+                ok, why = not wst and not wstart, "a watcher is created although restart_on_command_exit is off"
+            elif ok:
+                ok, why = False, "restart_on_command_exit is not consulted"
+        else:
+            ok, why = False, "the stopping flag is not consulted"
+        ctx.check(ok, RT, f"AutoRestartTrick._start_process stopping={st_} on-exit={ex}", why, fi.loc)
+    # ---- _stop_process
+    fi, ps = paths("_stop_process")
+    nchild = 0
+    for p in ps:
+        c = p.conds()
+        if c.get("self._is_process_stopping") is not False or p.outcome[0] == "raise":
+            if p.outcome[0] == "raise":
+                ctx.viol(RKC, f"AutoRestartTrick._stop_process lets {p.outcome[1]} escape", "a failing kill (the child is already gone) propagates out of stop()/restart: the flag _is_process_stopping may stay set and stop() fails", fi.loc)
+            continue
+        has_child = c.get("self.process is None")
+        kills = [(i, e) for i, e in enumerate(p.evs) if e.kind == "call" and e.extra.get("func") == "kill_process"]
+        cleared = any(e.kind == "store" and e.extra.get("attr") == "process" and e.extra.get("value") == "None" for e in p.evs)
+        if has_child is not False:
+            ctx.check(not kills, RKC, f"AutoRestartTrick._stop_process without child [{p.sig()[:50]}]", "a signal is sent although there is no child", fi.loc, nontrivial=False)
+            continue
+        nchild += 1
+        ok, why = True, ""
+        if not kills or kills[0][1].extra.get("args") != ["self.process.pid", "self.stop_signal"]:
+            ok, why = False, f"the child does not get kill_process(self.process.pid, self.stop_signal) first (gets {[e.extra.get('args') for _, e in kills]})"
+        else:
+            i0 = kills[0][0]
+            first_failed = any(e.kind == "caught" and e.text.startswith("OSError") for e in p.evs[i0 + 1 : i0 + 3])
+            rest = kills[1:]
+            loops = [e for e in p.evs[i0:] if e.kind == "loop"]
+            exited = c.get("self.process.poll() is None") is False and any(e.kind == "final_iter" for e in p.evs)
+            expired = next((v for k, v in c.items() if k.startswith("time.time() < ") and "kill_after" in k), None) is False
+            if first_failed:
+                if rest:
+                    ok, why = False, "the stop signal failed (child already gone) but another signal is sent"
+            elif exited:
+                if rest:
+                    ok, why = False, "the child exited in time but is sent signal 9 anyway"
+            elif expired:
+                if len(rest) != 1 or rest[0][1].extra.get("args") != ["self.process.pid", "9"]:
+                    ok, why = False, "the child did not exit within kill_after and is not sent kill_process(self.process.pid, 9): it stays alive after stop() returned"
+                for L in loops:
+                    for b in L.extra["paths"]:
+                        bc = b.conds()
+                        if b.outcome == ("break",) and bc.get("self.process.poll() is None") is not False:
+                            ok, why = False, "the polling loop is left although the child was not found exited (no signal 9 follows)"
+                        if b.outcome is NORMAL and bc.get("self.process.poll() is None") is not True:
+                            ok, why = False, "the polling loop goes on although the child was found exited"
+            else:
+                ok, why = False, f"the path neither sees the child exit nor kill_after expire [{p.sig()[:80]}]"
+        if ok and not cleared:
+            ok, why = False, "self.process is not cleared: the next restart signals a dead pid / a recycled process group"
+        ctx.check(ok, RKC, f"AutoRestartTrick._stop_process child [{p.sig()[:70]}]", why, fi.loc)
+    if nchild < 3:
+        raise AnalysisError("AutoRestartTrick._stop_process: expected the cases signal failed / exited in time / expired")
+    # ---- kill_process definitions
+    tm = A.module
+    defs = [n for n in ast.walk(tm.tree) if isinstance(n, ast.FunctionDef) and n.name == "kill_process"]
+    if not defs:
+        raise AnalysisError("anchor vanished: tricks.kill_process")
+    for d in defs:
+        ps_ = [a.arg for a in d.args.args]
+        body_calls = [ast.unparse(n) for n in ast.walk(d) if isinstance(n, ast.Call) and ast.unparse(n.func) in ("os.kill", "os.killpg")]
+        ok = len(ps_) == 2 and body_calls in ([f"os.killpg(os.getpgid({ps_[0]}), {ps_[1]})"], [f"os.kill({ps_[0]}, {ps_[1]})"])
+        ctx.check(ok, RKC, f"kill_process at line-independent form `{body_calls[0][:40] if body_calls else 'no signal call'}`", f"kill_process({', '.join(ps_)}) does {body_calls}: expected os.killpg(os.getpgid(pid), signal) (the child is a session leader: its own children must go too) or os.kill(pid, signal) on Windows", f"{tm.relpath}:{d.lineno}")
+    # ---- ShellCommandTrick.is_process_running
+    RSP = ctx.rule("C18/shell-running-predicate", "ShellCommandTrick.is_process_running is true iff a process watcher is still registered or the last process exists and has not exited (the drop-during-process option relies on it)", floor=1)
+    S = P.cls("ShellCommandTrick")
+    rf = S.methods.get("is_process_running")
+    if rf is None:
+        raise AnalysisError("anchor vanished: ShellCommandTrick.is_process_running")
+    okp, whyp, n2 = True, "", 0
+    for p in Enumerator(Cfg(P)).run(boolified(rf), selfcls="ShellCommandTrick"):
+        if p.outcome[0] != "return" or not isinstance(p.outcome[1], ast.Constant):
+            okp, whyp = False, "does not return a truth value"
+            continue
+        n2 += 1
+        c = p.conds()
+        w, pn, ex = c.get("self._process_watchers"), c.get("self.process is None"), c.get("self.process.poll() is None")
+        expect = True if w is True else (True if (pn is False and ex is True) else (False if (w is False and (pn is True or ex is False)) else None))
+        if expect is None or bool(p.outcome[1].value) != expect:
+            okp, whyp = False, f"returns {p.outcome[1].value} with watchers={w}, process is None={pn}, poll() is None={ex}"
+    ctx.check(okp and n2 >= 3, RSP, "ShellCommandTrick.is_process_running", whyp or "too few cases", rf.loc)
+
+
 def run(ctx) -> None:
     P = ctx.P
     RM = ctx.rule("C18/monitor-discipline", "the debouncer's untimed wait sits in a predicate loop whose predicate its notifiers write (same instance as C06)", floor=3)
@@ -378,6 +581,8 @@ def run(ctx) -> None:
     ctx.check(ok_exit and ncall >= 1, RWX, "ProcessWatcher.run callback only after the child exited", msgx, W.methods["run"].loc)
     ctx.check(ok_quiet and nquiet >= 1, RWX, "ProcessWatcher.run silent exit only when stopped", msgx or "no silent exit path found", W.methods["run"].loc)
 
+    trick_contracts(ctx, P)
+
     # ---------------------------------------------------------------- ShellCommandTrick
     S = P.cls("ShellCommandTrick")
     cfg3 = ThreadCfg(P, follow_attrs=False, no_inline={"join", "start", "is_process_running"})
@@ -408,6 +613,30 @@ DB = "utils/event_debouncer.py"
 TR = "tricks/__init__.py"
 PW = "utils/process_watcher.py"
 VARIANTS = [
+    dict(name="B debouncer created but never started", expect="fire", rule="C18/restart-sequencing", edits=[("tricks/__init__.py", "            self.event_debouncer.start()\n", "            pass\n")]),
+    dict(name="B debouncer only without an interval", expect="fire", rule="C18/restart-sequencing", edits=[("tricks/__init__.py", "        if self.debounce_interval_seconds:\n            self.event_debouncer = EventDebouncer(", "        if not self.debounce_interval_seconds:\n            self.event_debouncer = EventDebouncer(")]),
+    dict(name="B restarts only on opened events", expect="fire", rule="C18/restart-sequencing", edits=[("tricks/__init__.py", "    @echo_events\n    def on_any_event(self, event: FileSystemEvent) -> None:\n        if event.event_type in {EVENT_TYPE_OPENED, EVENT_TYPE_CLOSED_NO_WRITE}:\n            # FIXME: see issue #949, and find a way to better handle that scenario\n            return\n\n        if self.event_debouncer", "    @echo_events\n    def on_any_event(self, event: FileSystemEvent) -> None:\n        if event.event_type not in {EVENT_TYPE_OPENED, EVENT_TYPE_CLOSED_NO_WRITE}:\n            return\n\n        if self.event_debouncer")]),
+    dict(name="B event not handed to the debouncer", expect="fire", rule="C18/restart-sequencing", edits=[("tricks/__init__.py", "            self.event_debouncer.handle_event(event)\n", "            pass\n")]),
+    dict(name="B direct restart dropped", expect="fire", rule="C18/restart-sequencing", edits=[("tricks/__init__.py", "        else:\n            self._restart_process()\n", "        else:\n            pass\n")]),
+    dict(name="B restart does not stop the old child", expect="fire", rule="C18/restart-sequencing", edits=[("tricks/__init__.py", "        self._stop_process()\n        self._start_process()\n        self.restart_count += 1", "        self._start_process()\n        self.restart_count += 1")]),
+    dict(name="B restart starts before it stops", expect="fire", rule="C18/restart-sequencing", edits=[("tricks/__init__.py", "        self._stop_process()\n        self._start_process()\n        self.restart_count += 1", "        self._start_process()\n        self._stop_process()\n        self.restart_count += 1")]),
+    dict(name="B restart does not start a new child", expect="fire", rule="C18/restart-sequencing", edits=[("tricks/__init__.py", "        self._stop_process()\n        self._start_process()\n        self.restart_count += 1", "        self._stop_process()\n        self.restart_count += 1")]),
+    dict(name="B restart proceeds only while stopping", expect="fire", rule="C18/restart-sequencing", edits=[("tricks/__init__.py", "    def _restart_process(self) -> None:\n        if self._is_trick_stopping:\n            return", "    def _restart_process(self) -> None:\n        if not self._is_trick_stopping:\n            return")]),
+    dict(name="B child spawned only while stopping", expect="fire", rule="C18/", edits=[("tricks/__init__.py", "    def _start_process(self) -> None:\n        if self._is_trick_stopping:\n            return", "    def _start_process(self) -> None:\n        if not self._is_trick_stopping:\n            return")]),
+    dict(name="B watcher only when restart_on_command_exit is off", expect="fire", rule="C18/restart-sequencing", edits=[("tricks/__init__.py", "        if self.restart_on_command_exit:\n            self.process_watcher = ProcessWatcher(", "        if not self.restart_on_command_exit:\n            self.process_watcher = ProcessWatcher(")]),
+    dict(name="B watcher arguments swapped", expect="fire", rule="C18/restart-sequencing", edits=[("tricks/__init__.py", "ProcessWatcher(self.process, self._restart_process)", "ProcessWatcher(self._restart_process, self.process)")]),
+    dict(name="B watcher never started", expect="fire", rule="C18/restart-sequencing", edits=[("tricks/__init__.py", "            self.process_watcher.start()\n\n    def _stop_process", "            pass\n\n    def _stop_process")]),
+    dict(name="B signal 9 never sent", expect="fire", rule="C18/stop-kills-the-child", edits=[("tricks/__init__.py", "                        with contextlib.suppress(OSError):\n                            kill_process(self.process.pid, 9)", "                        pass")]),
+    dict(name="B polling loop leaves while the child runs", expect="fire", rule="C18/stop-kills-the-child", edits=[("tricks/__init__.py", "                        if self.process.poll() is not None:\n                            break", "                        if self.process.poll() is None:\n                            break")]),
+    dict(name="B failing signal 9 escapes", expect="fire", rule="C18/stop-kills-the-child", edits=[("tricks/__init__.py", "                        with contextlib.suppress(OSError):\n                            kill_process(self.process.pid, 9)", "                        kill_process(self.process.pid, 9)")]),
+    dict(name="B stop signal and pid swapped", expect="fire", rule="C18/stop-kills-the-child", edits=[("tricks/__init__.py", "kill_process(self.process.pid, self.stop_signal)", "kill_process(self.stop_signal, self.process.pid)")]),
+    dict(name="B process field not cleared", expect="fire", rule="C18/stop-kills-the-child", edits=[("tricks/__init__.py", "                            kill_process(self.process.pid, 9)\n                self.process = None", "                            kill_process(self.process.pid, 9)")]),
+    dict(name="B kill_process signals only the leader", expect="fire", rule="C18/stop-kills-the-child", edits=[("tricks/__init__.py", "        os.killpg(os.getpgid(pid), stop_signal)", "        os.kill(stop_signal, pid)")]),
+    dict(name="B shell trick: running predicate always false", expect="fire", rule="C18/shell-running-predicate", edits=[("tricks/__init__.py", "        return bool(self._process_watchers or (self.process is not None and self.process.poll() is None))", "        return False")]),
+    dict(name="B shell trick: running predicate ignores the last process", expect="fire", rule="C18/shell-running-predicate", edits=[("tricks/__init__.py", "        return bool(self._process_watchers or (self.process is not None and self.process.poll() is None))", "        return bool(self._process_watchers)")]),
+    dict(name="B shell trick: poll polarity flipped", expect="fire", rule="C18/shell-running-predicate", edits=[("tricks/__init__.py", "self.process is not None and self.process.poll() is None))", "self.process is not None and self.process.poll() is not None))")]),
+    dict(name="E restart written with an early-out helper variable", expect="silent", edits=[("tricks/__init__.py", "    def _restart_process(self) -> None:\n        if self._is_trick_stopping:\n            return\n        self._stop_process()", "    def _restart_process(self) -> None:\n        stopping = self._is_trick_stopping\n        if stopping:\n            return\n        self._stop_process()")]),
+    dict(name="E shell trick: running predicate as if-chain", expect="silent", edits=[("tricks/__init__.py", "        return bool(self._process_watchers or (self.process is not None and self.process.poll() is None))", "        if self._process_watchers:\n            return True\n        if self.process is None:\n            return False\n        return self.process.poll() is None")]),
     dict(name="B stop() does not join the process watcher", expect="fire", rule="C18/stop-must-effects", edits=[("tricks/__init__.py", "        if process_watcher is not None:\n            process_watcher.join()\n", "        if process_watcher is not None:\n            pass\n")]),
     dict(name="B stop() joins the watcher only when there is none", expect="fire", rule="C18/", edits=[("tricks/__init__.py", "        if process_watcher is not None:\n            process_watcher.join()\n", "        if process_watcher is None:\n            process_watcher.join()\n")]),
     dict(name="B watcher polls with the wrong polarity", expect="fire", rule="C18/watcher-reports-exactly-the-exit", edits=[("utils/process_watcher.py", "while self.popen_obj.poll() is None:", "while self.popen_obj.poll() is not None:")]),
